@@ -50,7 +50,7 @@ def cases(tier, seed):
     out = []
     n = 30 if tier == "quick" else 900
     for k in range(n):
-        surfs = rand_surfaces(rng, int(rng.choice([1, 1, 2])))
+        surfs = rand_surfaces(rng, int(rng.choice([1, 2, 3])))
         alpha = float(np.round(rng.uniform(-5, 12), 3))
         if k % 7 == 0:
             alpha = 0.0
